@@ -877,6 +877,13 @@ def r65_eval(ctx, repo):
          None),
         ("[calculation] k2 = 1.25 instead of 1.5", {"k2": 1.25}, None),
         ("[setup] s1 = 'xy' instead of 'x y'", {"s1": "xy"}, None),
+        ("[calculation] k2 = 1.5004 instead of 1.5", {"k2": 1.5004}, None),
+        ("[calculation] k2 = 1.50000001 instead of 1.5", {"k2": 1.50000001},
+         None),
+        ("[calculation] k1 = 'Müller' (non-ASCII)", {"k1": "M\u00fcller"},
+         None),
+        ("[calculation] k1 = 'Möller' (non-ASCII)", {"k1": "M\u00f6ller"},
+         None),
         ("requirement function returns ('medium', 2)", {}, ("medium", 2)),
         ("requirement function returns ('other', 1)", {}, ("other", 1)),
         ("requirement function returns 'medium'", {}, "medium"),
